@@ -538,6 +538,10 @@ def crouter_jobs(tier, seed):
     for vi, (variant, n) in enumerate(plan):
         for frm, cnt in split(n, 6 if q else 8):
             jobs.append(Job('h_crouter', variant, pseed(seed, 'C11', vi), frm, cnt, label=variant))
+    # small histories (2-4 threads x 2-4 operations) decided by a complete linearizability search
+    for vi, (variant, n) in enumerate((('mon', 24000), ('asan', 6000)) if q else (('mon', 2000000), ('asan', 200000), ('mon-ndebug', 400000))):
+        for frm, cnt in split(n, 4 if q else 8):
+            jobs.append(Job('h_crouter', variant, pseed(seed, 'C11', 20 + vi), frm, cnt, ['mode=lin'], label=variant + '/lin'))
     return jobs
 
 
@@ -545,18 +549,23 @@ SPECS['C11'] = dict(
     title='ConcurrentSubjectRouter operations are atomic',
     jobs=crouter_jobs,
     parallel=8,
-    require={'any': {'histories': 100, 'notifiesWithCallbacks': 5000, 'snapshotsWithConcurrentWrite': 2000, 'writesOverlappingNotify': 5000, 'unsubscribes': 3000, 'shrinks': 1000}},
+    require={'any': {'histories': 100, 'notifiesWithCallbacks': 5000, 'snapshotsWithConcurrentWrite': 2000, 'writesOverlappingNotify': 5000, 'unsubscribes': 3000, 'shrinks': 1000,
+                     'linHistoriesWithOverlap': 8000},
+             },
     evidence=lambda agg, samples, distinct, tier: cov(
         agg.get('histories', 0), distinct,
         'case = one history: 4-16 threads x 40-140 operations mixing notify (concrete and wildcard patterns), subscribe, USubscription::unsubscribe, shrink, exists, depth over six keys; calls, returns and '
         'callback entry/exit are stamped by one seq_cst counter; callbacks are slow (yield / 20-170 us sleep) and never call the router; the router\'s Resource gets interposer delays. Rules per notify: no callback '
         'entered after that observer\'s unsubscribe returned; no write operation called and returned inside one delivery; the reached/missed observers are explained by one instant in [call, return] (exact interval '
-        'arithmetic); nobody reached twice; exists/depth consistent with completed subscriptions. non-trivial = history containing a judged notify that overlapped a subscribe/unsubscribe of a matching observer; '
+        'arithmetic); nobody reached twice; exists/depth consistent with completed subscriptions. In addition tens of thousands of SMALL histories (2-4 threads x 2-4 operations after a short prologue) are '
+        'decided completely: a backtracking search looks for a total order that respects real time and, replayed on the sequential SubjectRouter, reproduces every result (notify: return value and set of '
+        'observers reached; exists; depth); none found = not linearizable, search budget exhausted = inconclusive. non-trivial = history containing a judged notify that overlapped a subscribe/unsubscribe of a matching observer; '
         'distinct = fingerprints of the order of operation returns',
         samples, observed=pick(agg, 'histories', 'ops', 'notifies', 'notifiesWithCallbacks', 'callbacks', 'subscribes', 'unsubscribes', 'shrinks', 'existsCalls', 'depthCalls', 'writesOverlappingNotify',
-                               'snapshotsJudged', 'snapshotsWithConcurrentWrite', 'missedObserversJudged', 'maxThreads', 'delaysInjected', 'lockParks')),
+                               'snapshotsJudged', 'snapshotsWithConcurrentWrite', 'missedObserversJudged', 'maxThreads', 'delaysInjected', 'lockParks',
+                               'linHistories', 'linOperations', 'linSearchNodes', 'linInconclusive', 'linHistoriesWithOverlap')),
     assumptions=['mute/unmute and in-callback invalidation are excluded: the quantifier does not list them and they bypass the lock by design', 'callbacks do not call back into the router',
-                 'every rule is a necessary condition of linearizability: the check can miss non-linearizable histories that satisfy all four rules'],
+                 'large histories: every rule is a necessary condition of linearizability (such a check can miss non-linearizable histories that satisfy all four rules); small histories: complete search, the sequential SubjectRouter is the specification'],
     manifest=dict(engine='h_crouter', text='Offline checker over stamped call/return/callback events of real multi-threaded histories: four necessary conditions of linearizability decided exactly per notify '
                   '(many tiny interval problems instead of one NP-hard search), in monitored and ASan builds.',
                   note='Schedules sampled with delays inside the router\'s lock and CPU pinning; trusted: the stamp counter and the client-boundary recording.',
